@@ -484,6 +484,32 @@ def guard_established(res, fi, cfg, node, direct, led=None, depth=0, _busy=None)
             why = _helper_exits_established(res, hs, direct, led, depth, _busy, "truthy" if pol else "falsy")
             if why:
                 return f"`{short(atom, 50)}` = {pol}: {why}"
+    # (a') a table of guards run in a loop that is left as soon as one objects:
+    #      for g in GUARDS: r = <dispatch g>(x); if r is not None: return …      — past the exhausted loop every guard said "none"
+    for t, lab in edge_guards(cfg, node):
+        if t.kind != "for" or lab != "F":
+            continue
+        loop = t.stmt if isinstance(getattr(t, "stmt", None), ast.For) else None
+        if loop is None:
+            continue
+        for i, st in enumerate(loop.body):
+            if not (isinstance(st, ast.Assign) and len(st.targets) == 1 and isinstance(st.targets[0], ast.Name) and isinstance(st.value, ast.Call)):
+                continue
+            v = st.targets[0].id
+            nxt = loop.body[i + 1] if i + 1 < len(loop.body) else None
+            if not isinstance(nxt, ast.If) or nxt.orelse:
+                continue
+            leaves = bool(nxt.body) and isinstance(nxt.body[-1], (ast.Return, ast.Raise))
+            if not leaves:
+                continue
+            kinds = [rk for atom, pol in edge_facts(nxt.test, "F") for rk in [_result_kind(atom, pol)] if rk and rk[0] == v]
+            if not kinds:
+                continue
+            hs = res.resolve_call(fi, st.value)
+            for g in hs:
+                why = _helper_exits_established(res, [g], direct, led, depth, _busy, kinds[0][1])
+                if why:
+                    return f"the loop over `{short(loop.iter, 40)}` is exhausted only when every guard answered {kinds[0][1]}: {why}"
     # (b) dominating raising helper
     dom = cfg.dominators().get(node, set())
     for d in dom:
